@@ -44,9 +44,11 @@ func (m *FileMode) Compare(other Object) (int, error) {
 		}
 		return 0, nil
 	case *Int:
-		if m.value < ros.FileMode(other.value) {
+		// Widen the mode rather than narrowing the int, which would make
+		// ints beyond 32 bits compare as equal to small modes
+		if int64(m.value) < other.value {
 			return -1, nil
-		} else if m.value > ros.FileMode(other.value) {
+		} else if int64(m.value) > other.value {
 			return 1, nil
 		}
 		return 0, nil
@@ -62,7 +64,7 @@ func (m *FileMode) Equals(other Object) Object {
 			return True
 		}
 	case *Int:
-		if m.value == ros.FileMode(other.value) {
+		if int64(m.value) == other.value {
 			return True
 		}
 	}
